@@ -8,14 +8,14 @@ from types import SimpleNamespace
 
 import numpy as np
 
-from . import core, hist
+from . import core, hist, translate
 from .core import Outcome, PropertySpec, enc_list
 
 from gemdat.jumps import Jumps, _generic_transitions_to_jumps  # noqa: E402
 from gemdat.transitions import _calculate_transition_events  # noqa: E402
 
 PID = 'C04'
-MODULES = ['GProofs.C03', 'GProofs.C04', 'GProofs.C04Strict']
+MODULES = ['GProofs.C03', 'GProofs.C04', 'GProofs.C04Strict', 'GProofs.C04Gen']
 MRS = [0, 1, 2, 3, 5]
 
 
@@ -222,6 +222,7 @@ SPEC = PropertySpec(
     modules=MODULES,
     run=run,
     replay=replay,
+    gen=translate.generate,
     rule=('exhaustive: every one-atom history over 2 sites + "none" (default mode, inner = outer) and every (site, inner) history '
           'with inner_t in {-1, site_t} up to the stated lengths, each under minimal_residence in {0,1,2,3,5}, through '
           '_calculate_transition_events + _generic_transitions_to_jumps; random multi-atom histories up to 300 frames with random '
